@@ -533,6 +533,11 @@ func (t *Table) Put(input *types.PutItemInput) (map[string]*types.Item, error) {
 		}
 	}
 
+	// a write is all-or-nothing: check the index keys before anything is stored
+	if err := t.validateIndexKeys(item); err != nil {
+		return nil, types.NewError("ValidationException", err.Error(), nil)
+	}
+
 	t.setItem(key, item)
 
 	for _, index := range t.Indexes {
@@ -543,6 +548,17 @@ func (t *Table) Put(input *types.PutItemInput) (map[string]*types.Item, error) {
 	}
 
 	return item, nil
+}
+
+// validateIndexKeys checks that the item's index key attributes have the declared types
+func (t *Table) validateIndexKeys(item map[string]*types.Item) error {
+	for _, index := range t.Indexes {
+		if _, err := index.keySchema.GetKey(t.AttributesDef, item); err != nil {
+			return err
+		}
+	}
+
+	return nil
 }
 
 func (t *Table) interpreterUpdate(input interpreter.UpdateInput) error {
@@ -595,6 +611,8 @@ func (t *Table) Update(input *types.UpdateItemInput) (map[string]*types.Item, er
 	}
 
 	oldItem := copyItem(item)
+	// work on a copy: the stored item only changes if the whole update succeeds
+	item = copyItem(item)
 
 	err = t.interpreterUpdate(interpreter.UpdateInput{
 		TableName:  t.Name,
@@ -605,6 +623,10 @@ func (t *Table) Update(input *types.UpdateItemInput) (map[string]*types.Item, er
 	})
 	if err != nil {
 		return nil, err
+	}
+
+	if err := t.validateIndexKeys(item); err != nil {
+		return nil, types.NewError("ValidationException", err.Error(), nil)
 	}
 
 	t.setItem(key, item)
